@@ -65,6 +65,7 @@ class MemStateBackend(BaseStateBackend[Params, Result]):
         self._workflow_types.clear()
         self._workflow_runs.clear()
         self._workflow_sub_invocations.clear()
+        self._workflow_data.clear()
 
     def _upsert_invocations(
         self, entries: list[tuple["InvocationDTO", "CallDTO"]]
